@@ -301,6 +301,22 @@ def interleave(ctx, case):
     ctx.check('all connections closed and still listed', all(not c.is_open() for c in mgr.connections()) and len(mgr.connections()) == (1 if na else 0) + (1 if nb else 0))
 
 
+def header_tag(ctx, case):
+    """the connection a line belongs to is the tag in its HEADER (or the default connection), whatever its string arguments contain"""
+    _quiet()
+    from core import wl
+    from backends.libwayland_debug_output import parse
+    tag = ctx.choose([None, '1', '12'], 'header_tag')
+    queue = ctx.choose([False, True], 'queue')
+    payload = ctx.choose([' <2> ', '<2>', 'x <B> y', ' {q} <3>  -> a#1.b(', '<PARSED>', ' <12> '], 'payload')
+    sent = ctx.choose([True, False], 'sent')
+    line = '[1000.100]' + (' {Default Queue}' if queue else '') + ((' <%s>' % tag) if tag else '') + ('  -> ' if sent else ' ') + 'wl_thing#5.say(3, "%s", nil)' % payload
+    wl.Message.base_time = None
+    cid, m = parse.message(line)
+    ctx.check('line `%s` belongs to the connection of its header' % line, cid == (tag if tag else 'PARSED'))
+    ctx.check('and is decoded as written', m.sent == sent and m.obj.id == 5 and m.name == 'say' and len(m.args) == 3 and m.args[1].value == payload)
+
+
 def twin(ctx, case):
     frame(ctx, case)
     ctx.check('reachability twin (must be violated)', False)
@@ -326,5 +342,6 @@ def obligations(tier):
            cases=[(a, b) for a in range(0, 5) for b in range(0, 5) if a + b > 0 and (tier != 'quick' or a + b <= 6)] +
                  [(a, b, x, y) for (x, y) in ((1, 0), (0, 1), (1, 1)) for a in (1, 2, 3) for b in (1, 2, 3) if x + a <= 4 and y + b <= 4 and (tier != 'quick' or a + b <= 4)] +
                  [(a, b, 9, 0) for a in (1, 2) for b in (0, 1, 2)]),
+        Ob('header-tag', 'symx', 'tag-like text inside string arguments never decides the connection', FUNCS[8:9], '3 header tags x queue or not x 6 payloads x 2 directions', header_tag, cases=[None]),
         Ob('frame-reachable', 'symx', 'reachability twin', FUNCS[:6], '', twin, cases=[(('new', 'obj'), 'x')], expect_cex=True),
     ]
